@@ -254,7 +254,8 @@ def run_brew(case, workdir=None, keep=False):
                     scores.append({"id": r["id"], "num": fr[0], "den": fr[1], "ok": fr[2], "nan": fr[3]})
         trace = {"folds": case["folds"], "nfiles": len(case["files"]), "capped": case.get("cap") is not None,
                  "cap": int(case.get("cap") or 0), "thr": list(thr), "rows": rows, "fits": fits, "preds": preds,
-                 "raised": raised, "raised_type": rtype, "calib_error": "Failed to calibrate scores" in raised, "scores": scores, "trainsets": trainsets, "trained": bool(trained),
+                 "raised": raised, "raised_type": rtype, "calib_error": "Failed to calibrate scores" in raised,
+                 "start_error": "No PSMs accepted at train_fdr" in raised, "scores": scores, "trainsets": trainsets, "trained": bool(trained),
                  "calibrated": case.get("est", "feat") != "proba" and all(p["raw_int"] for p in preds)}
         info = {"ret": ret, "events": rec.events, "enforced": rec.enforced, "datasets": dsets, "wd": wd}
         return trace, info
